@@ -615,7 +615,8 @@ def Dec.canon : Dec → Dec
   | d => d
 
 mutual
-/-- canonical representative of a value under Python's `==` (only Decimals have several representations) -/
+/-- canonical representative of a value: structural equality up to the representation of a Decimal (finer than
+Python's `==`, which also identifies aware datetimes of one instant and `0.0 == -0.0`) -/
 def Val.canon : Val → Val
   | .dec d => .dec d.canon
   | .list xs => .list (canonList xs)
